@@ -85,7 +85,7 @@ def trace_specs(tier, seed, variants_of, n_quick=10, n_thorough=80, backends=("n
             specs[-1].update(data="dynrange", win="kaiser", psll=200, order=rnd.choice([-1, 0]))
             # with 1e17 between the line and the floor, a factor that is not a power of two re-rounds the line by more than the floor's
             # own size (rounding "relative to the size of the record"): such records are rescaled by powers of two only
-            specs[-1]["variants"] = [(("scale", -4, 1, 2, 1) if v[0] == "scale" else v) for v in specs[-1]["variants"]]
+            specs[-1]["variants"] = [(("scale", -4, 1, 2, 1) if v[0] == "scale" else ("gain", -4.0) if v[0] == "gain" else v) for v in specs[-1]["variants"]]
     for e in extra:
         specs.append(dict(e, seed=rnd.randrange(2 ** 31), variants=variants_of(rnd)))
     return specs
